@@ -142,6 +142,8 @@ ObsSession(s, gm, line) ==
              ck |-> Cardinality(DOMAIN s.ck_hist), ep |-> EpBuf(s)],
     lso |-> s.last_sent_outgoing,
     og |-> SortedSeq(DOMAIN s.outgoing),
+    \* num_players(), num_spectators(), max_prediction(), in_lockstep_mode()
+    gt |-> <<s.np, Len(s.saddrs), s.W, s.W = 0>>,
     \* local_player_handles(), remote_player_handles(), spectator_handles(): ascending
     hl |-> << SortedSeq({h \in DOMAIN s.htype : s.htype[h].t = "L"}),
               SortedSeq({h \in DOMAIN s.htype : s.htype[h].t = "R"}),
@@ -314,6 +316,7 @@ Events(p) ==
 ObsSpec(s, gm, line) ==
   line @@
   [ g |-> <<gm.frame, gm.hash>>, cur |-> s.cur, run |-> s.running, lrf |-> s.last_recv, evq |-> Len(s.evq),
+    fbh |-> s.last_recv - s.cur, npl |-> s.np,      \* frames_behind_host(), num_players()
     st |-> [i \in 1..s.np |-> <<s.host_status[i-1].disc, s.host_status[i-1].last>>] ]
 
 TickSpecWith(p) ==
